@@ -59,6 +59,7 @@ class C02:
     id = "C02"
     level = "exploration"
     variants = ("asan", "fast")
+    fuzz_target = "fuzz_parse"
     rule = ("cases = (hand-built schema, context flags, delivery route buffer|stream|file, text); texts are directed "
             "pathological shapes (size-parameterised), grammar-derived texts from the schema pushed through 0-6 "
             "byte-level mutations (insert/delete/flip/truncate/splice), plus coverage-guided libFuzzer inputs "
@@ -262,7 +263,7 @@ class C02:
         r.run_cases(self.directed(r.tier), chunksize=8)
         r.run_hypothesis(30000 if r.tier == "quick" else 600000)
         import fuzzdrv
-        fuzzdrv.run_fuzz(r, "fuzz_parse", "C02", secs=60 if r.tier == "quick" else 900)
+        fuzzdrv.run_fuzz(r, "fuzz_parse", "C02", secs=45 if r.tier == "quick" else 900, empty_corpus_too=(r.tier == "thorough"))
 
 
 PROP = C02()
